@@ -33,7 +33,7 @@ def _mutate(rng, s, rate):
     return "".join(out) or "A"
 
 
-def make_workload(seed, n_records=None, max_records=24, fat=0.0):
+def make_workload(seed, n_records=None, max_records=24, fat=0.0, long_reads=None):
     """Returns dict(gfa=str, gaf=str, fasta=str, n=int, names=[...])."""
     rng = random.Random("wl-%d" % seed)
     n_nodes = rng.randint(2, 8)
@@ -46,6 +46,14 @@ def make_workload(seed, n_records=None, max_records=24, fat=0.0):
     for _ in range(rng.randint(0, n_nodes)):
         a, b = rng.choice(nodes), rng.choice(nodes)
         links.add((a, rng.choice("+-"), b, rng.choice("+-")))
+    if long_reads is None:
+        long_reads = rng.random() < 0.04
+    if long_reads:
+        # one node longer than realign's 60 000-base limit: alignments of more than 60 000 read bases are
+        # not realigned but passed through unchanged (a branch of the worker of its own)
+        nodes.append("sL")
+        unit = _rand_seq(rng, 97)
+        seqs["sL"] = (unit * 640)[:60200]  # isolated: random walks never enter it
     links = sorted(links)
     # oriented adjacency for walks
     adj = {}
@@ -55,6 +63,7 @@ def make_workload(seed, n_records=None, max_records=24, fat=0.0):
         adj.setdefault((b, flip[db]), []).append((a, flip[da]))
     gfa_lines = []
     off = 0
+    walk_nodes = [n for n in nodes if n != "sL"]
     for n in nodes:
         gfa_lines.append("S\t%s\t%s\tLN:i:%d\tSN:Z:chr1\tSO:i:%d\tSR:i:0" % (n, seqs[n], len(seqs[n]), off))
         off += len(seqs[n])
@@ -71,13 +80,21 @@ def make_workload(seed, n_records=None, max_records=24, fat=0.0):
     dup_records = rng.random() < 0.08  # some workloads contain byte-identical alignments
     gaf_lines, fasta_lines, names = [], [], []
     prev = None
+    any_long = False
     for i in range(n_records):
         name = "r%d" % i
         names.append(name)
         if dup_records and prev is not None and rng.random() < 0.5:
             path, plen, ps, pe, read, qs, qe = prev
+        elif long_reads and (rng.random() < 0.2 or (i == n_records - 1 and not any_long)):
+            any_long = True
+            path, plen = ">sL", len(seqs["sL"])
+            ps, pe = rng.randint(0, 50), plen - rng.randint(0, 50)
+            read = seqs["sL"][ps:pe]
+            qs, qe = 0, len(read)
+            prev = (path, plen, ps, pe, read, qs, qe)
         else:
-            cur = (rng.choice(nodes), rng.choice("+-"))
+            cur = (rng.choice(walk_nodes), rng.choice("+-"))
             walk = [cur]
             for _ in range(rng.randint(0, 4)):
                 nxt = adj.get(cur)
